@@ -1,4 +1,5 @@
 import GoDcp.Driver.Session
+import GoDcp.Driver.Api
 import GoDcp.Props.C01
 import GoDcp.Props.C05
 /-!
@@ -112,7 +113,7 @@ def smonStep (m : SMon) (s s' : St) (ts : List String) (real : String)
         | _, _ => "FAIL C02.unparsable"
       | _ => "ok"
     (m1, firstFail (c06 ++ c15))
-  | ["rebalance", _, _] =>
+  | ["rebalance", _, _] | ["api-rebalance", _, _] =>
     -- same stream object: contexts stay acknowledgeable; positions are re-loaded (new announcements), markers and
     -- the C05 bookkeeping start afresh (a rebalance discards unsaved dirty marks exactly like a close)
     let m0 : SMon := { m with announced := [], lastTrack := [], marker := [], dirtySettled := [] }
@@ -129,7 +130,7 @@ def smonStep (m : SMon) (s s' : St) (ts : List String) (real : String)
           if seq ≤ (s.high.get? v).getD 0 then "ok" else "FAIL C15.start-beyond-high"
         | _, _ => "FAIL C02.unparsable"
       | _ => "ok"
-    (m1, firstFail (c06 ++ c15))
+    (m1, firstFail (c06 ++ c15 ++ [apiRebalanceVerdict s ts real]))
   | ["reopen", vb] =>
     -- C12 / C02: the re-request starts at the current (last announced) position of that vBucket
     let v12 := words.map fun w => match w with
@@ -311,7 +312,10 @@ def smonStep (m : SMon) (s s' : St) (ts : List String) (real : String)
           "KF F2 an acknowledgement that landed between a save's dump and its unmark (or during an overlapping save) lost its dirty mark: progress stays unsaved"
       else "ok"
     (m, firstFail (c06 ++ v1 ++ [v4] ++ v2 ++ [v3]))
-  | ["scrape"] =>
+  | ["api-offsets"] =>
+    -- C16: GET /states/offset shows the tracked positions (and says "not open" exactly while closed)
+    (m, apiOffsetsVerdict s (fun vb => ((m.announced.get? vb).getD []).foldl max 0) real)
+  | ["scrape"] | ["api-metrics"] =>
     -- C16: lag = max(0, high − seq) per vBucket, total = sum, gauges = the tracked (last announced) position
     match words with
     | [["scrape", "closed"]] => (m, if s.obsNil then "ok" else "FAIL C16.scrape-empty-while-open")
